@@ -148,6 +148,25 @@ impl Xg {
         out
     }
 
+    /// the transition table of one colour: for every variable j and state s the successor, or -1
+    pub fn steps_of_colour(&self, c: usize) -> Vec<i64> {
+        let ctx = self.graph.symbolic_context();
+        let nvars = ctx.bdd_variable_set().num_vars();
+        let mut val = BddValuation::all_false(nvars);
+        let zero_v: Vec<usize> = vec![0; self.k];
+        let mut step = Vec::new();
+        for (j, var) in self.vars.iter().enumerate() {
+            let f = self.graph.get_symbolic_fn_update(*var);
+            for s in 0..self.n_s {
+                self.fill(&mut val, s, c, &zero_v);
+                let fv = f.eval_in(&val);
+                let cur = (s >> j) & 1 == 1;
+                step.push(if fv != cur { (s ^ (1 << j)) as i64 } else { -1 });
+            }
+        }
+        step
+    }
+
     /// the explicit family: `graph nV nS nC k valid step labels`
     pub fn graph_line(&self) -> String {
         let ctx = self.graph.symbolic_context();
@@ -162,19 +181,7 @@ impl Xg {
         }
         let mut step: Vec<String> = Vec::new();
         for c in 0..self.n_c {
-            for (j, var) in self.vars.iter().enumerate() {
-                let f = self.graph.get_symbolic_fn_update(*var);
-                for s in 0..self.n_s {
-                    self.fill(&mut val, s, c, &zero_v);
-                    let fv = f.eval_in(&val);
-                    let cur = (s >> j) & 1 == 1;
-                    if fv != cur {
-                        step.push(format!("{}", s ^ (1 << j)));
-                    } else {
-                        step.push("-1".to_string());
-                    }
-                }
-            }
+            step.extend(self.steps_of_colour(c).iter().map(|x| format!("{x}")));
         }
         let mut labels: Vec<String> = Vec::new();
         for (j, name) in self.var_names.iter().enumerate() {
@@ -290,7 +297,7 @@ pub fn rand_ctx(rng: &mut Rng, xg: &Xg, labels: &[&str]) -> Ctx {
     let mut ctx = Ctx::new();
     let valid = xg.valid_colours();
     for l in labels {
-        let kind = rng.below(7);
+        let kind = rng.below(9);
         let seed = rng.next();
         let set = match kind {
             0 => xg.set_from_pred(|_, _| false),
@@ -308,7 +315,17 @@ pub fn rand_ctx(rng: &mut Rng, xg: &Xg, labels: &[&str]) -> Ctx {
                 xg.set_from_pred(|s, _| s == st)
             }
             // a single (state, colour) pair per colour
-            _ => xg.set_from_pred(|s, c| s == ((seed as usize).wrapping_add(c * 5)) % xg.n_s),
+            6 => xg.set_from_pred(|s, c| s == ((seed as usize).wrapping_add(c * 5)) % xg.n_s),
+            // "network variable j holds": constrains one bit of the state only
+            7 => {
+                let j = (seed as usize) % xg.n_v.max(1);
+                xg.set_from_pred(|s, _| (s >> j) & 1 == 1)
+            }
+            // one bit of the state, polarity depending on the colour
+            _ => {
+                let j = (seed as usize) % xg.n_v.max(1);
+                xg.set_from_pred(|s, c| ((s >> j) & 1 == 1) == (c % 2 == 0))
+            }
         };
         ctx.insert(l.to_string(), set);
     }
@@ -406,6 +423,10 @@ pub fn k7(dir: &str, thorough: bool, seed: u64) {
                         let t = if k >= 2 && rng.chance(1, 5) {
                             // duplicates over two variables with swapped / shifted roles
                             swapped_duplicates(&mut rng, &spec, k >= 3)
+                        } else if k >= 2 && rng.chance(1, 5) {
+                            // the same one-variable sub-formula under different depth names (cache hit + renaming)
+                            let three = k >= 3 && rng.chance(1, 2);
+                            renamed_duplicates(&mut rng, &spec, three)
                         } else {
                             rand_tree(&mut rng, &spec2, size, &mut Vec::new(), true)
                         };
